@@ -230,6 +230,10 @@ def finalize(m, tier):
 
 def replay(f, ctx):
     c = f.get('case', {})
+    if f.get('kind', '').startswith('metadata_'):
+        # needs the just-imported state: nothing else may have been called in this process
+        run_shard({'part': 'interleave', 'mode': c.get('mode', 'line')}, ctx)
+        return
     if 'cells' in c:
         import a5
         from a5.core.cell_info import get_num_children
